@@ -372,15 +372,27 @@ structure TLoc where
   started : Tick
   done : Bool           -- state.done
   failed : Bool         -- state.counts.failure > 0: the series has failed for good (no reset, since af4d77a)
-  errDelay : Tick       -- min(state.delays) when not done
+  errDelay : Tick       -- min(state.delays) when not done (never negative in the code: `max(0, …)`)
+  runs : Nat            -- how many times the handler was invoked so far (indexes the outcome stream)
   deriving DecidableEq, Repr
 
-/-- What one handler run reports (adversarial: any value). -/
+/-- What one handler run reports (adversarial: any value, a different one at every run).
+    `yields` — the run gave control to the event loop at least once: true for sync handlers (they
+    run in the executor), for async handlers that await something, and whenever a non-empty patch
+    is sent. NOTHING in `execute_handlers_once` / `invocation.invoke` / `patch_and_check` (empty
+    patch) suspends by itself: an `async def` handler that returns or raises without awaiting
+    (e.g. `raise kopf.TemporaryError(delay=0)`) makes the whole run a non-suspending step. -/
 structure Outcome where
   done : Bool
   failed : Bool
   errDelay : Tick
+  yields : Bool
   deriving DecidableEq, Repr
+
+/-- The exact guard of `progress`: a run that does not yield and is to be retried must be retried
+    after a positive delay (`TemporaryError(delay>0)`, `backoff>0`); in kopf terms the only way to
+    violate it is delay `0`/`None` (delays are clamped at 0). -/
+def Outcome.good (o : Outcome) : Bool := o.yields || o.done || decide (0 < o.errDelay)
 
 inductive TRes where
   | cont (l : TLoc)     -- went on without giving control to the event loop
@@ -395,7 +407,7 @@ def sleepSuspends (delay : Tick) (e : TEnv) : Bool := decide (0 < delay) && !e.s
 def sleepTo (delay : Tick) (e : TEnv) (l : TLoc) : TRes :=
   if sleepSuspends delay e then .susp l else .cont l
 
-def tstep (c : TCfg) (e : TEnv) (outcome : Outcome) (l : TLoc) : TRes :=
+def tstep (c : TCfg) (e : TEnv) (os : Nat → Outcome) (l : TLoc) : TRes :=
   match l.pc with
   | .init =>
     match c.initialDelay with
@@ -419,13 +431,15 @@ def tstep (c : TCfg) (e : TEnv) (outcome : Outcome) (l : TLoc) : TRes :=
   | .idleDone => if e.stop then .cont { l with pc := .head } else .cont { l with pc := .invoke }
   | .invoke =>
     if l.done && l.failed then
-      -- a series that has failed for good: nothing is left to invoke, nothing to patch; modelled as
-      -- NOT suspending (the harder case for `progress`); the state stays done
+      -- a series that has failed for good: nothing is left to invoke, nothing to patch: never suspends;
+      -- the state stays done
       .cont { l with pc := .post, started := e.now }
     else
-      -- the handler call and the patch round-trip are awaited: modelled as suspending
-      .susp { l with pc := .post, started := e.now, done := outcome.done, failed := outcome.failed,
-                     errDelay := outcome.errDelay }
+      -- the handler call and the patch round-trip: suspends or not, as the run reports
+      let o := os l.runs
+      let l' := { l with pc := .post, started := e.now, done := o.done, failed := o.failed,
+                         errDelay := o.errDelay, runs := l.runs + 1 }
+      if o.yields then .susp l' else .cont l'
   | .post =>
     if !l.done then sleepTo l.errDelay e { l with pc := .head }
     else match c.interval with
@@ -445,7 +459,7 @@ def tstep (c : TCfg) (e : TEnv) (outcome : Outcome) (l : TLoc) : TRes :=
 
 /-- Within `k` micro-steps (the environment frozen: nothing else runs meanwhile) the coroutine
     suspends or returns. -/
-def settles (c : TCfg) (e : TEnv) (outcome : Outcome) : Nat → TLoc → Bool
+def settles (c : TCfg) (e : TEnv) (outcome : Nat → Outcome) : Nat → TLoc → Bool
   | 0, _ => false
   | k + 1, l =>
     match tstep c e outcome l with
@@ -458,5 +472,93 @@ def settles (c : TCfg) (e : TEnv) (outcome : Outcome) : Nat → TLoc → Bool
 def spinning (c : TCfg) (e : TEnv) (l : TLoc) : Bool :=
   !c.guarded && c.idle.isSome && e.stop && decide (e.idleReset ≤ l.started) &&
     (l.pc == .idleLoop || (l.pc == .post && l.done && c.interval.isNone))
+
+/-! ### Micro-steps of `_daemon`'s control flow -/
+
+inductive DPC where
+  | init        -- before the initial delay
+  | head        -- `while not stopper.is_set() and not state.done`
+  | invoke      -- execute_handlers_once; patch_and_check
+  | post        -- `if state.delay: await aiotime.sleep(state.delay, wakeup=stopper)`
+  deriving DecidableEq, Repr
+
+structure DLoc where
+  pc : DPC
+  done : Bool
+  delay : Tick          -- `state.delay` (0 also stands for None: both are falsy)
+  runs : Nat
+  deriving DecidableEq, Repr
+
+inductive DRes where
+  | cont (l : DLoc)
+  | susp (l : DLoc)
+  | exit
+  deriving DecidableEq, Repr
+
+def dsleepTo (delay : Tick) (e : TEnv) (l : DLoc) : DRes :=
+  if sleepSuspends delay e then .susp l else .cont l
+
+def dstep (initialDelay : Option Tick) (e : TEnv) (os : Nat → Outcome) (l : DLoc) : DRes :=
+  match l.pc with
+  | .init =>
+    match initialDelay with
+    | some d => dsleepTo d e { l with pc := .head }
+    | none => .cont { l with pc := .head }
+  | .head => if e.stop || l.done then .exit else .cont { l with pc := .invoke }
+  | .invoke =>
+    let o := os l.runs
+    let l' := { l with pc := .post, done := o.done, delay := o.errDelay, runs := l.runs + 1 }
+    if o.yields then .susp l' else .cont l'
+  | .post =>
+    if l.delay ≠ 0 then dsleepTo l.delay e { l with pc := .head }     -- `if state.delay:`
+    else .cont { l with pc := .head }
+
+def dsettles (initialDelay : Option Tick) (e : TEnv) (os : Nat → Outcome) : Nat → DLoc → Bool
+  | 0, _ => false
+  | k + 1, l =>
+    match dstep initialDelay e os l with
+    | .susp _ => true
+    | .exit => true
+    | .cont l' => dsettles initialDelay e os k l'
+
+/-! ### Statement vocabulary of the property theorems -/
+
+/-- The memory was forgotten (`known = false`: a DELETED event was processed) while an instance that
+    was never asked to stop is running and no daemon-killer coroutine works on it (finding F10). -/
+def Orphan (s : St) : Prop := s.known = false ∧ ∀ i, s.run = some i → i.reasons = [] ∧ i.kstarts = []
+
+/-- Where the daemon killer stands with respect to its round at time `r` for this daemon. -/
+inductive Duty where
+  | waiting     -- the round at `r` has not started `stop_daemon` for it yet
+  | begun       -- `stop_daemon` runs: reason set, awaiting the backoff
+  | served      -- its cancellation stage is done
+  deriving DecidableEq, Repr
+
+def Duty.next (r : Tick) (d : Duty) (s : St) (l : Label) : Duty :=
+  if d = .waiting ∧ l = .kBegin .pausing ∧ s.now = r then .begun      -- the round at `r` reaches this daemon
+  else if d = .begun ∧ l = .kCancel r then .served                    -- that coroutine's cancellation stage
+  else d
+
+/-- `Dutiful c r d s ls`: along the labels `ls` from `s` the daemon killer does what its code does when
+    its time comes — asyncio timers fire when due: time does not pass `r` (the round) while this
+    daemon is listed (instance running, memory known) and the round has not started `stop_daemon` for
+    it; and time does not pass `r + backoff` while the instance runs and that coroutine has not done
+    its cancellation stage. Nothing else is assumed about the run: cycles, other killer coroutines,
+    the instance ending, any time steps. -/
+def Duty.allows (c : Cfg) (r : Tick) (d : Duty) (s : St) : Label → Prop
+  | .tick n =>
+    match d with
+    | .waiting => s.now + n ≤ r ∨ s.known = false ∨ s.run = none
+    | .begun => s.now + n ≤ r + c.b0 ∨ s.run = none
+    | .served => True
+  | _ => True
+
+def Dutiful (c : Cfg) (r : Tick) : Duty → St → List Label → Prop
+  | _, _, [] => True
+  | d, s, l :: ls =>
+    d.allows c r s l ∧
+    (match step c s l with
+     | some s' => Dutiful c r (d.next r s l) s' ls
+     | none => True)
 
 end Kopf.C09
